@@ -153,7 +153,7 @@ PURE_NAMES = {
     "len", "is_empty", "eq", "ne", "lt", "le", "gt", "ge", "cmp", "partial_cmp", "as_str", "as_bytes",
     "to_string", "to_uppercase", "to_lowercase", "starts_with", "ends_with", "find", "rfind", "split",
     "splitn", "parse", "get", "contains_key", "iter", "map", "collect", "into_iter", "chars",
-    "char_indices", "filter", "and_then", "ok", "ok_or", "ok_or_else", "map_err", "map_or", "join",
+    "char_indices", "filter", "and_then", "ok", "ok_or", "ok_or_else", "map_err", "map_or", "map_or_else", "join",
     "as_ref", "borrow", "to_owned", "to_vec", "format", "from_str", "as_millis", "trim", "enumerate",
     "opposite", "default", "with_capacity", "new", "from", "into", "index", "is_char_boundary",
     "wrapping_add", "wrapping_sub", "checked_add", "checked_sub", "abs", "sum", "count", "rev",
@@ -170,6 +170,9 @@ COMBINATORS = {
     "std::option::Option::ok_or": (_O, "Some", "None", "ok_or"),
     "std::option::Option::unwrap_or_else": (_O, "Some", "None", "unwrap_or_else"),
     "std::option::Option::map_or": (_O, "Some", "None", "map_or"),
+    "std::option::Option::map_or_else": (_O, "Some", "None", "map_or_else"),
+    "std::result::Result::map_or_else": (_R, "Ok", "Err", "map_or_else"),
+    "std::result::Result::map_or": (_R, "Ok", "Err", "map_or"),
     "std::result::Result::map": (_R, "Ok", "Err", "map"),
     "std::result::Result::map_err": (_R, "Ok", "Err", "map_err"),
     "std::result::Result::and_then": (_R, "Ok", "Err", "and_then"),
@@ -1442,6 +1445,10 @@ class Walker:
             g = args[2] if len(args) > 2 else None
             alts.append((pos, self._apply_fn(st, fr, g, [payload(pos)], None)))
             alts.append((neg, ("val", f)))
+        elif kind == "map_or_else":  # (self, default_fn, f): None -> default_fn() / Err(e) -> default_fn(e) ; Some(x)/Ok(x) -> f(x)
+            g = args[2] if len(args) > 2 else None
+            alts.append((pos, self._apply_fn(st, fr, g, [payload(pos)], None)))
+            alts.append((neg, self._apply_fn(st, fr, f, [] if adt == OPT else [payload(neg)], None)))
         else:
             return None
         if any(a is None for _, a in alts):
